@@ -55,7 +55,7 @@ def run_shard(desc, R, tier):
                     eval_point({'x': x, 'm': m, 'NFFT': nf, 'fs': 1.0}, R)
     else:
         _, N, cplx = desc
-        fam = (A.gen_cplx(N) + A.tones_cplx(N)) if cplx else (A.gen_real(N) + A.tones_real(N))
+        fam = (A.gen_cplx(N) + A.tones_cplx(N)) if cplx else (A.gen_real(N) + A.tones_real(N) + A.pcm(N))
         for name, x in fam:
             for m in range(2, min(N // 2, 16) + 1):
                 for nf in sorted(set([2 * m, 2 * m + 1, 4 * m, 4 * m + 3, 64])):
@@ -71,7 +71,7 @@ def eval_point(pt, R):
     m, nf, fs = int(pt['m']), int(pt['NFFT']), float(pt['fs'])
     N = len(x)
     cplx = np.iscomplexobj(x)
-    power = float(np.mean(np.abs(x) ** 2))
+    power = float(np.mean(np.abs(A.prom(x)) ** 2))
     k, rho, dens = rar.burg(x, m - 1)
     if len(k) < m - 1 or np.any(dens < 1e-6 * N * power) or np.any(rho < 1e-9 * power):
         R.point(pt, indomain=False)
@@ -90,7 +90,7 @@ def eval_point(pt, R):
     E = np.exp(2j * np.pi * np.outer(np.arange(m), f))          # columns e(f_k)
     q = np.real(np.einsum('ik,ij,jk->k', np.conj(E), Ri, E))
     ref = fs / q
-    feats = {'dtype': 'complex' if cplx else 'real', 'nfft': 'odd' if nf % 2 else 'even'}
+    feats = {'dtype': 'complex' if cplx else ('narrow-int' if x.dtype.kind in 'iu' else 'real'), 'nfft': 'odd' if nf % 2 else 'even'}
     R.point(pt)
     R.calls()
     try:
